@@ -84,7 +84,9 @@ def read_as_traj(ctx, case):
     ctx.interp.call_models[f"{mod.name}.{clsname}.read"] = read_model
     h = Obj(cls)
     top = SubsetTop(A, "file.top")
-    h.fields.update(_open=True, mode="r", _mode="r", _frame_index=0, _is_open=True)
+    pos0 = ctx.int("position_before")
+    ctx.assume(pos0 >= 0)
+    h.fields.update(_open=True, mode="r", _mode="r", _frame_index=pos0, _is_open=True)
     if topsrc == "own":
         cls.ns["topology"] = top  # the property / attribute is under contract elsewhere (C04); here it is a given value
         h.fields["topology"] = top
@@ -110,9 +112,16 @@ def read_as_traj(ctx, case):
     if shape == "frames" or "angles" in shape:
         a = t.fields["_unitcell_angles"]
         ctx.ensure("cell-angles=stored-angles-unconverted", a is not None and a.base == "file.angles" and a.idx == () and a.scale == 1.0)
+    tm = t.fields["_time"]
     if stored_time:
-        tm = t.fields["_time"]
         ctx.ensure("time=stored-time-unconverted", tm is not None and tm.base == "file.time" and tm.idx == () and tm.scale == 1.0)
+    else:
+        # formats without stored times: frame k of the result is file frame position_before + k*stride
+        from mdvc.npmodel import NumpyT
+
+        ar = NumpyT().np_arange(ctx.interp, tm.shape[0] if tm is not None else F)
+        want = ar.sym_binop(ctx.interp, "Mult", stride, True).sym_binop(ctx.interp, "Add", pos0, False)
+        ctx.ensure("time[k]=position_before+k*stride", tm is not None and tm.nf() == want.nf())
     rt = t.fields["_topology"]
     if with_atoms:
         ctx.ensure("topology-restricted-to-atom_indices", isinstance(rt, SubsetTop) and rt.parent is top and rt.indices is atom_indices)
